@@ -14,6 +14,11 @@ FRONT_MATTERS = [
     "---\n? [a, b]\n: sequence key\n---\nstep\n",
     "---\ntrue: bool key\n---\nstep\n",
 ]
+# characters JSON has to escape, in every text position; empty collections in the standard keys
+ESCAPES = ['@tart tin{1%9"}\n', '@baking paper{2%12" sheets}(the "good" one)\n', '@a\\b{1%c\\d}\n', '>> title: say "hi"\n@x{some "text"}\n',
+           '@tab\there{1}\n', '~"rest"{5%min}\n', '#"pan"|big "pan"{}\n', '= "Prep" =\n> a "quoted" note\n']
+EMPTIES = ["---\nservings: []\n---\n@a{1}\n", "---\nserves: []\n---\nstep\n", "---\nyield: []\ntags: []\n---\nstep\n",
+           "---\nservings: [2]\ntags: [a]\nauthor: {}\ntime: {}\n---\nstep\n", "---\nk: []\nj: {}\nn: ''\n---\nstep\n"]
 REFERENCES = ["@./sauce{2%cups}\n", "@../x/y{1}\n", "@./a/b/c{}\n", "@@./tomato sauce{2%cups} and @&./tomato sauce{1%cup}\n", "@.\\win\\path{}\n"]
 
 
@@ -35,6 +40,8 @@ def check_c15(ctx):
     recs = [dict(text=d["text"], ext=d["ext"], conv=d["conv"], tag="cookdoc") for d in docs]
     recs += [dict(text=t, extbits=3818, conv="bundled", tag="frontmatter") for t in FRONT_MATTERS]
     recs += [dict(text=t, extbits=3818, conv="bundled", tag="reference") for t in REFERENCES]
+    recs += [dict(text=t, extbits=3818, conv="bundled", tag="escapes") for t in ESCAPES]
+    recs += [dict(text=t, extbits=3818, conv="bundled", tag="empties") for t in EMPTIES]
     recs += [dict(text=t["text"], extbits=3818, conv="bundled", tag="repo") for t in repo_corpus()]
     recs += fraction_docs()
     pin = os.path.join(ctx.work, "sd_in.ndjson")
